@@ -15,7 +15,7 @@ use std::path::PathBuf;
 pub static SPEC: PropSpec = PropSpec {
     id: "C16",
     level: "exploration",
-    rule: "projects: 31 scenario families instantiated over package names drawn from {Geo, GeoShapes, Lib, LibX, P1, P10, Ab, Abc, Util, MainUtil, Core, Main..} so that implementing / using packages are proper prefixes of owners and vice versa: impl of a trait for a type placed in the type's package, the trait's package (legal), a third package, Main (orphans), twice in one package across files, with one or both headers qualifying the trait by the package's own name (duplicates), inherent impl on a foreign type; a package-qualified use without import in 14 syntactic positions (inherent method / static function / trait method reached by a path through the package's type or trait, let annotation, closure-parameter annotation, call, type in signature, struct literal, struct pattern, enum constructor, enum pattern, dyn type, impl header, generic bound) in Main and in the second file of a library whose first file does import; transitive use; import of a missing package; package declaration that differs from the directory; import cycles of length 1-3; equally named types with impls of one trait in two packages; each accepted project also with decoy packages (same item names, own impls) added and imported. expected: accept + exact stdout, or reject without internal error. non-trivial: every scenario instance; distinct by source hash",
+    rule: "projects: 40 scenario families (incl. a foreign trait / an inherent impl for a foreign generic type applied to a local type, in Main and in a library) instantiated over package names drawn from {Geo, GeoShapes, Lib, LibX, P1, P10, Ab, Abc, Util, MainUtil, Core, Main..} so that implementing / using packages are proper prefixes of owners and vice versa: impl of a trait for a type placed in the type's package, the trait's package (legal), a third package, Main (orphans), twice in one package across files, with one or both headers qualifying the trait by the package's own name (duplicates), inherent impl on a foreign type; a package-qualified use without import in 14 syntactic positions (inherent method / static function / trait method reached by a path through the package's type or trait, let annotation, closure-parameter annotation, call, type in signature, struct literal, struct pattern, enum constructor, enum pattern, dyn type, impl header, generic bound) in Main and in the second file of a library whose first file does import; transitive use; import of a missing package; package declaration that differs from the directory; import cycles of length 1-3; equally named types with impls of one trait in two packages; each accepted project also with decoy packages (same item names, own impls) added and imported. expected: accept + exact stdout, or reject without internal error. non-trivial: every scenario instance; distinct by source hash",
     eval_counter: "scenarios",
     assumptions: &["observed through the whole-program entry point (C14 checks that check/build/link agrees with it); behaviour through gomini"],
     crash_is_violation: false,
